@@ -10,7 +10,8 @@ import vm_util as U
 GROUP = "VM"
 THEOREMS = ["C10_catch_once", "C10_uncaught_stops", "C10_defers_rev_once", "C10_defers_spent",
             "C10_panic_defers_rev_once", "C10_recover_resumes_caller", "C10_old_refuted",
-            "C10_failing_defer_skips_rest_refuted"]
+            "C10_failing_defer_skips_rest_old_refuted", "C10_defers_statement_holds",
+            "C10_return_leaves_frame_clean", "C10_return_marker_old_refuted"]
 META = {
     "group": "VM",
     "technique": "Coq proofs over an executable model of the bytecode interpreter's try/catch, defer, panic/recover and "
@@ -20,21 +21,20 @@ META = {
             "error in a running context with a live try entry and its try marker anywhere below values, markers and call "
             "frames of called functions is redirected to that entry's catch address exactly once: entry spent, inner "
             "entries discarded, frames above popped), C10_uncaught_stops (no live entry: the loop returns the error, "
-            "nothing else runs), C10_defers_rev_once / C10_defers_spent / C10_panic_defers_rev_once (RunDefers and panic "
-            "unwinding start the frame's deferred calls in reverse registration order, once each; after the repair "
-            "a4adb034 a second RunDefers starts nothing; C10_old_refuted keeps the double run of the old code), "
-            "C10_recover_resumes_caller (a recovered frame is popped and the caller resumes after the call). The model is "
-            "run by vm_compute on the bytecode the real compiler emits for generated programs and compared with the real "
-            "VM (printed markers and outcome class); the documented order (reference function) is compared with the real "
-            "outputs. Three defects of the compiler's stack-marker discipline are recorded as known findings (for loop "
-            "inside try, break/continue out of try, value return below two markers); the theorem's stack-shape "
-            "hypothesis (try marker present, frames well formed) is exactly what they break. A fourth known finding: after "
-            "a deferred call FAILS the deferred calls registered before it are never started "
-            "(C10_failing_defer_skips_rest_refuted; C10_defers_rev_once carries the guard child_ok = no deferred call "
-            "fails, C10_defers_spent = never twice holds unguarded). "
-            "partial: the preservation of the stack-shape invariant by compiled code is observed (correspondence), not "
-            "proved; selective catch lists, named/multiple results, goroutines and the symbol-table visibility rules are "
-            "outside the model",
+            "nothing else runs), C10_defers_rev_once / C10_panic_defers_rev_once (RunDefers and panic unwinding start "
+            "ALL deferred calls of the frame in reverse registration order, once each, whatever any of them returns -- a "
+            "call that fails or recovers does not stop the others; unguarded since fix b6774d66), C10_defers_spent (a "
+            "second RunDefers starts nothing, fix a4adb034), C10_recover_resumes_caller (a recovered frame is popped and the "
+            "caller resumes after the call), C10_return_leaves_frame_clean (a value return leaves nothing of the function "
+            "above its call frame whatever markers surrounded it, fix 030cc3b3); the behaviour before each repair is kept "
+            "as C10_old_refuted, C10_failing_defer_skips_rest_old_refuted, C10_return_marker_old_refuted. The model is run by "
+            "vm_compute on the bytecode the real compiler emits for generated programs and compared with the real VM; the "
+            "documented order (reference function) is compared with the real outputs. Six defects were found and repaired "
+            "(a4adb034, b6774d66, 030cc3b3, 74b1e8a2, 4b25dcd5 for C10; the generator now nests loops in try blocks, leaves "
+            "try blocks with break/continue and returns from nested try blocks). "
+            "partial: the preservation of the stack-shape invariant by compiled code (hypothesis of C10_catch_once) is "
+            "observed by the correspondence, not proved; selective catch lists, named/multiple results, goroutines and the "
+            "symbol-table visibility rules are outside the model",
     "note": "Trusted: Coq kernel; hand-written model coq/VM/Model.v tied to the code by the per-run correspondence; "
             "harness/C10 (dumper + in-package compile/run), lib/vm_util.py (translator dump->Coq, generator, reference).",
 }
@@ -274,7 +274,7 @@ func main() {
     r1 := f0()
     print r1
 }
-""", [0, 42, 41, 43, 44], "failing-defer-skips-rest"),
+""", [0, 42, 41, 43, 44], None),
     ("for-loop-in-try", """@extensions true
 func main() {
     try {
@@ -289,7 +289,7 @@ func main() {
     }
     print 4
 }
-""", [0, 1, 1, 3, 4], "for-loop-in-try"),
+""", [0, 1, 1, 3, 4], None),
     ("loop-exit-from-try", """@extensions true
 func f0() int {
     for i := 0; i < 2; i = i + 1 {
@@ -317,7 +317,7 @@ func main() {
     }
     print 8
 }
-""", [0, 1, 3, 7, 8], "loop-exit-from-try"),
+""", [0, 1, 3, 7, 8], None),
     ("return-in-nested-try", """@extensions true
 func f0() int {
     try {
@@ -336,7 +336,7 @@ func main() {
     print r1
     print 5
 }
-""", [0, 1, 5], "return-in-nested-try"),
+""", [0, 1, 5], None),
 ]
 
 
@@ -472,13 +472,6 @@ def run(ck):
                 skipped_undoc += 1
                 continue
             want = [cls] + tr
-            if o != want:
-                # the one recorded divergence of the VM from the documented reading: after a deferred call
-                # fails the deferred calls registered before it are dropped
-                cls2, tr2 = U.ref_trace(progs[i], vm_variant=True)
-                if o == [cls2] + tr2:
-                    sig = "failing-defer-skips-rest"
-                    nskiprest += 1
         if want is not None and o != want:
             oracle_viol = oracle_viol or sig is None
             if sig is None:
@@ -490,7 +483,7 @@ def run(ck):
     ck.cov["evaluations"] = len(srcs)
     ck.cov["distinct_nontrivial"] = len(nontriv)
     ck.cov["input_distribution"] = {"programs": len(srcs), "corpus": len(CORPUS) if not ck.replay_file else 0,
-                                    "with_feature": feat, "shapes": shapes, "oracle_skipped_budget": skipped_undoc, "failing_defer_skips_rest_seen": nskiprest,
+                                    "with_feature": feat, "shapes": shapes, "oracle_skipped_budget": skipped_undoc,
                                     "real_outcomes": {str(c): sum(1 for o in real if o and o[0] == c) for c in (0, 1, 2)}}
     for i in range(min(3, len(srcs))):
         ck.sample({"program": names[i], "real": real[i]})
